@@ -95,6 +95,12 @@ func init() {
 		"(*sync.Once).Do":                  nil,
 		"(*sync.Pool).Get":                 mPoolGet,
 		"(*sync.Pool).Put":                 mPoolPut,
+		"(*sync.Map).Load":                 mSyncMapLoad,
+		"(*sync.Map).Store":                mSyncMapStore,
+		"(*sync.Map).LoadOrStore":          mSyncMapLoadOrStore,
+		"(*sync.Map).LoadAndDelete":        mSyncMapLoadAndDelete,
+		"(*sync.Map).Delete":               mSyncMapDelete,
+		"(*sync.Map).Range":                mSyncMapRange,
 	} {
 		if v == nil {
 			delete(externals, k)
@@ -1152,5 +1158,96 @@ func mPoolPut(fr *frame, args []value) (value, bool) {
 		return nil, true
 	}
 	cur.pools[p] = append(cur.pools[p], args[1])
+	return nil, true
+}
+
+// sync.Map: an ordered map per receiver; every operation is atomic and
+// ordered with the others on the same map (logged as a critical section, so
+// that a Store happens before the Load that observes it).
+var anyType = types.NewInterfaceType(nil, nil)
+
+func syncMapOf(p *value) *omap {
+	if cur.syncMaps == nil {
+		cur.syncMaps = map[*value]*omap{}
+	}
+	m := cur.syncMaps[p]
+	if m == nil {
+		m = newOmap(anyType)
+		m.fromInit = false
+		cur.syncMaps[p] = m
+	}
+	return m
+}
+
+func syncMapOp(p *value, f func(m *omap)) {
+	cur.sched.schedPoint()
+	cur.sched.logLock(evLock, p)
+	saved := cur.sched.logEvents
+	cur.sched.logEvents = false
+	f(syncMapOf(p))
+	cur.sched.logEvents = saved
+	cur.sched.logLock(evUnlock, p)
+}
+
+func mSyncMapLoad(fr *frame, args []value) (value, bool) {
+	var res value
+	syncMapOp(args[0].(*value), func(m *omap) {
+		if v, ok := m.lookup(args[1]); ok {
+			res = tuple{v, true}
+		} else {
+			res = tuple{iface{}, false}
+		}
+	})
+	return res, true
+}
+
+func mSyncMapStore(fr *frame, args []value) (value, bool) {
+	syncMapOp(args[0].(*value), func(m *omap) { m.insert(args[1], args[2]) })
+	return nil, true
+}
+
+func mSyncMapLoadOrStore(fr *frame, args []value) (value, bool) {
+	var res value
+	syncMapOp(args[0].(*value), func(m *omap) {
+		if v, ok := m.lookup(args[1]); ok {
+			res = tuple{v, true}
+		} else {
+			m.insert(args[1], args[2])
+			res = tuple{args[2], false}
+		}
+	})
+	return res, true
+}
+
+func mSyncMapLoadAndDelete(fr *frame, args []value) (value, bool) {
+	var res value
+	syncMapOp(args[0].(*value), func(m *omap) {
+		if v, ok := m.lookup(args[1]); ok {
+			m.delete(args[1])
+			res = tuple{v, true}
+		} else {
+			res = tuple{iface{}, false}
+		}
+	})
+	return res, true
+}
+
+func mSyncMapDelete(fr *frame, args []value) (value, bool) {
+	syncMapOp(args[0].(*value), func(m *omap) { m.delete(args[1]) })
+	return nil, true
+}
+
+func mSyncMapRange(fr *frame, args []value) (value, bool) {
+	var keys, vals []value
+	syncMapOp(args[0].(*value), func(m *omap) {
+		keys = append(keys, m.keys...)
+		vals = append(vals, m.vals...)
+	})
+	for i := range keys {
+		r := call(fr.i, fr, 0, args[1], []value{keys[i], vals[i]})
+		if b, ok := r.(bool); ok && !b {
+			break
+		}
+	}
 	return nil, true
 }
